@@ -682,7 +682,7 @@ func runC05(r *Report, tier string) {
 			sg := projectField(V, "Signature")
 			fs := P.factsBefore(st.at)
 			okNE := fs.holdsNonEmpty(sg)
-			if call := helperResult(P, sg); !okNE && call != nil && sg.Op == "field" {
+			if call := helperResult(P, sg); !okNE && call != nil && (sg.Op == "field" || sg.Op == "load") {
 				// the value comes from a helper: non-empty on each of its delivering exits
 				h := P.calleeOfTerm(call)
 				if ei := errIndex(h); ei >= 0 && fs.has(okFact(&Term{Op: "res", S: itoa(int64(ei)), Args: []*Term{call}})) {
@@ -693,7 +693,11 @@ func runC05(r *Report, tier string) {
 							continue
 						}
 						n++
-						if !exitFacts(P, hx).holdsNonEmpty(projectField(hx.results[0], "Signature")) {
+						hv := hx.results[0]
+						if a, isPtr := hx.ret.Results[0].(*ssa.Alloc); isPtr {
+							hv = P.terms.loadPath(a, nil, hx.ret)
+						}
+						if !exitFacts(P, hx).holdsNonEmpty(projectField(hv, "Signature")) {
 							okNE = false
 						}
 					}
@@ -842,7 +846,7 @@ func checkDecoderLayer(r *Report, rule, name string, st *recvWrite, W *types.Nam
 		// a helper whose success is required here: every delivering exit of
 		// the helper returns a local built in place that carries the three facts
 		call := helperResult(P, HV)
-		whole := HV.Op == "field"
+		whole := HV.Op == "field" || HV.Op == "load"
 		h := P.calleeOfTerm(call)
 		ei := errIndex(h)
 		why := ""
@@ -862,6 +866,9 @@ func checkDecoderLayer(r *Report, rule, name string, st *recvWrite, W *types.Nam
 			var a *ssa.Alloc
 			if isLoad {
 				a, _ = u.X.(*ssa.Alloc)
+			} else if whole {
+				// the helper returns the address of its local
+				a, _ = hx.ret.Results[0].(*ssa.Alloc)
 			}
 			if a == nil {
 				why = "helper " + shortFn(h) + " returns " + truncate(hx.results[0].String(), 100) + ", not a local built in place"
@@ -875,6 +882,9 @@ func checkDecoderLayer(r *Report, rule, name string, st *recvWrite, W *types.Nam
 				why = "in helper " + shortFn(h) + ": missing on a delivering exit: " + miss
 			}
 			rv := hx.results[0].subst(m)
+			if _, isPtr := hx.ret.Results[0].(*ssa.Alloc); isPtr && whole {
+				rv = P.terms.loadPath(a, nil, hx.ret).subst(m)
+			}
 			if whole {
 				rv = projectField(rv, "Headers")
 			}
@@ -1462,6 +1472,14 @@ func checkStructurePrefixes(r *Report, rule string) {
 func helperResult(P *Prog, t *Term) *Term {
 	if t.Op == "field" && len(t.Args) == 1 {
 		t = t.Args[0]
+	}
+	// a field of the value behind a returned pointer: *h(...).f is printed as
+	// load(field(res<0>(h(...)), f))
+	if t.Op == "load" && len(t.Args) == 1 {
+		t = t.Args[0]
+		for t.Op == "field" && len(t.Args) == 1 {
+			t = t.Args[0]
+		}
 	}
 	if t.Op == "res" && t.S == "0" && len(t.Args) == 1 && t.Args[0].Op == "call" && P.calleeOfTerm(t.Args[0]) != nil {
 		return t.Args[0]
